@@ -11,7 +11,7 @@ from ..specs import npmodel, operators as optab
 from .core_models import RawTok, NdTok, ARRAY_Q, VECTOR_Q
 
 ERR = (Unsupported, AnalysisError)
-DIMS = {"m": "L", "cm": "L", "km": "L", "s": "T", "dimensionless": "1", "g": "M"}
+DIMS = {"m": "L", "cm": "L", "km": "L", "s": "T", "dimensionless": "1", "percent": "1", "g": "M"}
 
 
 class U(Model):
@@ -251,9 +251,23 @@ class NpFunc(Model):
         return Result(self.__name__, self.calls[-1][0], self.calls[-1][1], self.dtype)
 
 
+def _as_array(copying):
+    def f(v, *a, **k):
+        if not isinstance(v, (RawTok, Result, NdTok)):
+            return RawTok(("num", v) if not isinstance(v, list) else ("list", tuple(v)), ())
+        may_copy = copying or k.get("order") not in (None, "K", "A") or k.get("dtype") is not None or (len(a) > 0 and a[0] is not None)
+        if k.get("copy") is False:
+            may_copy = k.get("order") not in (None, "K", "A") or k.get("dtype") is not None
+        if may_copy and isinstance(v, RawTok):
+            return RawTok(("copy", v.origin), v.shape, getattr(v, "dtype", None))
+        return v
+    return f
+
+
 def hooks():
     return {
-        "ext": {"numpy.asarray": lambda v, *a, **k: v if isinstance(v, (RawTok, Result, NdTok)) else RawTok(("num", v), ()),
+        "ext": {"numpy.asarray": _as_array(False), "numpy.asanyarray": _as_array(False), "numpy.array": _as_array(True),
+                "numpy.ascontiguousarray": _as_array(True), "numpy.copy": _as_array(True),
                 "numpy.issubdtype": issubdtype,
                 "numpy.reciprocal": lambda x: x, "numpy.amin": lambda x: x, "numpy.amax": lambda x: x},
         "globals": {"units/units.py::units": units_factory},
@@ -285,12 +299,17 @@ def check_binary_op_fold(run, tree, stricts=(True, False)):
         ("number", lambda: 2.0, "raise", (("num", 2.0), "dimensionless")),
         ("ndarray", lambda: RawTok("N"), "raise", ("N", "dimensionless")),
         ("Quantity in a compatible unit", lambda: Q(RawTok("Qm"), U("cm")), (("*", "Qm", ("ratio", "cm", "m")), "m"), (("*", "Qm", ("ratio", "cm", "m")), "m")),
+        # a dimensionless left operand: numbers are accepted; other dimensionless units (percent, ...) still converted
+        ("number, left operand dimensionless", lambda: 2.0, (("num", 2.0), "dimensionless"), (("num", 2.0), "dimensionless"), "dimensionless"),
+        ("Array in another dimensionless unit, left operand dimensionless", lambda: new_array(tree, hk, "B", "percent"),
+         (("*", "B", ("ratio", "percent", "dimensionless")), "dimensionless"), (("*", "B", ("ratio", "percent", "dimensionless")), "dimensionless"), "dimensionless"),
     ]
     for strict in stricts:
-        for label, mk, want_strict, want_loose in cases:
+        for label, mk, want_strict, want_loose, *rest in cases:
+            lunit = rest[0] if rest else "m"
             construct = "%s[strict=%s, rhs=%s]" % (BQ, strict, label)
             try:
-                lhs = new_array(tree, hk, "A", "m")
+                lhs = new_array(tree, hk, "A", lunit)
                 rhs = mk()
                 before = (arr_state(lhs), arr_state(rhs))
                 op = NpFunc("op", objects=True)
@@ -315,11 +334,11 @@ def check_binary_op_fold(run, tree, stricts=(True, False)):
                         problems.append("numpy function called %d times" % len(op.calls))
                     else:
                         a, kw = op.calls[0]
-                        wl = ("ARRAY-OBJECT", "A", "m")
+                        wl = ("ARRAY-OBJECT", "A", lunit)
                         wr = ("ARRAY-OBJECT",) + tuple(want)
                         if len(a) != 2 or a[0] != wl or a[1] != wr:
                             problems.append("numpy function receives %s, required (%s, %s)" % (a, wl, wr))
-                        if dict(kw).get("out") != ("ARRAY-OBJECT", "A", "m"):
+                        if dict(kw).get("out") != ("ARRAY-OBJECT", "A", lunit):
                             problems.append("keyword arguments not forwarded: %s" % (kw,))
                 run.ob(construct, not problems, fi.where(), "; ".join(problems) or (
                     "raises DimensionalityError, operands unchanged" if want == "raise" else "right operand reaches numpy as %s" % (want,)),
@@ -542,3 +561,221 @@ def check_protocols_fold(run, tree):
                        nontrivial=False)
             except (Raised,) + ERR as e:
                 run.unresolved(construct, m.where(), "cannot fold: %s" % e)
+
+
+# =============================================================================== Array.__init__ / __getitem__
+def check_constructor_fold(run, tree):
+    hk = hooks()
+    ci = tree.cls(ARRAY_Q)
+    fi = tree.method(ci, "__init__")
+    run.analysed(fi)
+    ev = ModelEval(tree, fi, {}, hk)
+
+    def build(*args, **kwargs):
+        return ev.instantiate(ci, list(args), kwargs, None)
+
+    def case(label, mk, want, family, nontrivial=True):
+        construct = "%s.__init__[%s]" % (ARRAY_Q, label)
+        try:
+            try:
+                a = mk()
+                got = (arr_state(a), a._attrs.get("name", a._attrs.get("_name")))
+            except Raised as e:
+                got = "raises " + e.name
+            run.ob(construct, got == want, fi.where(), "%s -> %s%s" % (label, got, "" if got == want else " (required %s)" % (want,)), family, nontrivial=nontrivial)
+        except ERR as e:
+            run.unresolved(construct, fi.where(), "cannot fold: %s" % e)
+
+    case("ndarray with a unit", lambda: build(values=RawTok("N"), unit="m", name="n"), (("N", "m"), "n"),
+         "Array(ndarray, 'm') copies the buffer (the Array is no longer a view of the data it was given) or mislabels it")
+    case("ndarray without a unit", lambda: build(RawTok("N")), (("N", "dimensionless"), ""), "a + ndarray: the ndarray is given a unit")
+    case("number", lambda: build(2.0, unit="s"), ((("num", 2.0), "s"), ""), "Array(2.0, 's')")
+    case("Quantity", lambda: build(Q(RawTok("Qm"), U("cm"))), (("Qm", "cm"), ""), "a + (3*cm): the number 3 is taken as metres")
+    case("Quantity with an explicit unit", lambda: build(Q(RawTok("Qm"), U("cm")), unit="s"), "raises ValueError", "Array(3*m, unit='s') silently relabels", False)
+    case("Array", lambda: build(new_array(tree, hk, "A", "m")), "raises NotImplementedError",
+         "Array(Array(...)) nests the wrapper: every later operation dispatches wrongly; a * v no longer reaches Vector.__rmul__")
+    case("Vector", lambda: build(PyObj(tree.cls(VECTOR_Q))), "raises NotImplementedError", "a * v does not fall back to the Vector's reflected operator")
+
+
+def check_index_gate_fold(run, tree):
+    hk = hooks()
+    ci = tree.cls(ARRAY_Q)
+    fi = tree.method(ci, "__getitem__")
+    run.analysed(fi)
+    ev = ModelEval(tree, fi, {}, hk)
+
+    def idx_array(dtype):
+        return ev.instantiate(ci, [], {"values": RawTok("I", (4,), DT(dtype))}, None)
+
+    cases = [("slice", lambda: slice(1, 3, None), ("idx", "A", ("slice", 1, 3, None)), True),
+             ("integer", lambda: 2, ("idx", "A", 2), True),
+             ("ndarray", lambda: RawTok("M", (4,)), ("idx", "A", "M"), True),
+             ("Vector", lambda: PyObj(tree.cls(VECTOR_Q)), "raises ValueError", False)]
+    for name, kind in npmodel.DTYPES.items():
+        ok = kind in "iub"
+        if name in ("int32", "int64", "bool"):
+            cases.append(("Array of dtype %s" % name, (lambda n=name: idx_array(n)), ("idx", "A", "I"), True))
+        elif not ok:
+            cases.append(("Array of dtype %s" % name, (lambda n=name: idx_array(n)), "raises TypeError", name == "float64"))
+    for label, mk, want, nontrivial in cases:
+        construct = "%s.__getitem__[%s]" % (ARRAY_Q, label)
+        try:
+            a = ev.instantiate(ci, [], {"values": RawTok("A", (4,)), "unit": "m", "name": "nm"}, None)
+            try:
+                r = ev.invoke(fi, [a, mk()], {}, None)
+                got = arr_state(r)[0] if isinstance(r, PyObj) else r
+                if isinstance(r, PyObj) and (arr_state(r)[1] != "m" or r._attrs.get("name", r._attrs.get("_name")) != "nm"):
+                    got = ("unit/name lost", arr_state(r))
+            except Raised as e:
+                got = "raises " + e.name
+            run.ob(construct, got == want, fi.where(), "a[%s] -> %s%s" % (label, got, "" if got == want else " (required %s)" % (want,)),
+                   "a float Array used as index (e.g. a mask multiplied by 1.0) is accepted / a boolean mask is rejected / the selection is a copy, not a view",
+                   nontrivial=nontrivial)
+        except ERR as e:
+            run.unresolved(construct, fi.where(), "cannot fold: %s" % e)
+
+
+# =============================================================================== Array.to
+def check_to_fold(run, tree):
+    hk = hooks()
+    ci = tree.cls(ARRAY_Q)
+    fi = tree.method(ci, "to")
+    construct = ARRAY_Q + ".to"
+    if fi is None:
+        run.violated(construct, ci.module.rel, "Array.to is not defined", "any unit conversion")
+        return
+    run.analysed(fi)
+    ev = ModelEval(tree, fi, {}, hk)
+    for dtype in ("float64", "int64"):
+        for label, target, want in (("equal unit", "m", "self"), ("compatible unit", "cm", (("*", "A", ("ratio", "m", "cm")), "cm")),
+                                    ("unit object", U("km"), (("*", "A", ("ratio", "m", "km")), "km")),
+                                    ("incompatible unit", "s", "raises DimensionalityError")):
+            c = "%s[%s, %s data]" % (construct, label, dtype)
+            try:
+                a = ev.instantiate(ci, [], {"values": RawTok("A", (4,), DT(dtype)), "unit": "m", "name": "nm"}, None)
+                before = arr_state(a)
+                try:
+                    r = ev.invoke(fi, [a, target], {}, None)
+                    got = "self" if r is a else arr_state(r) if isinstance(r, PyObj) else r
+                except Raised as e:
+                    got = "raises " + e.name
+                problems = []
+                if arr_state(a) != before:
+                    problems.append("the receiver is modified: %s -> %s" % (before, arr_state(a)))
+                if got != want and not (want == "self" and got in (("A", "m"), (("copy", "A"), "m"))):
+                    problems.append("returns %s (required %s)" % (got, want))
+                run.ob(c, not problems, fi.where(), "; ".join(problems) or "a.to(%s) -> %s" % (label, got),
+                       "a.to(u): values scaled by the inverse ratio, cast back to the integer dtype (150 cm -> 1 m), the receiver converted in place, "
+                       "or incompatible dimensions accepted", nontrivial=label != "unit object")
+            except ERR as e:
+                run.unresolved(c, fi.where(), "cannot fold: %s" % e)
+
+
+# =============================================================================== operator table (S4) as a fold
+REL = frozenset(["lt", "eq", "gt", "unordered"])          # element-wise relation of the two operands (unordered: a NaN)
+BOOL2 = frozenset(["TT", "TF", "FT", "FF"])
+TRUTH = {"less": (REL, {"lt"}), "less_equal": (REL, {"lt", "eq"}), "greater": (REL, {"gt"}), "greater_equal": (REL, {"gt", "eq"}),
+         "equal": (REL, {"eq"}), "not_equal": (REL, {"lt", "gt", "unordered"}),
+         "logical_and": (BOOL2, {"TT"}), "logical_or": (BOOL2, {"TT", "TF", "FT"}), "logical_xor": (BOOL2, {"TF", "FT"})}
+MIRROR = {"lt": "gt", "gt": "lt", "eq": "eq", "unordered": "unordered", "TT": "TT", "FF": "FF", "TF": "FT", "FT": "TF"}
+ARITH_NAMES = {"add": "+", "subtract": "-", "multiply": "*", "divide": "/", "true_divide": "/"}
+
+
+class Bin(Model):
+    """What the (stubbed) _binary_op returns: for predicates a truth set over the element-wise relation of the operands,
+    for arithmetic the operation itself."""
+
+    def __init__(self, kind, data, strict, out=None, calls=1):
+        self.kind, self.data, self.strict, self.out, self.calls = kind, data, strict, out, calls
+
+    def _combine(self, o, f):
+        if not isinstance(o, Bin) or self.kind != "truth" or o.kind != "truth" or self.data[0] != o.data[0]:
+            raise Unsupported("combination of operator results")
+        return Bin("truth", (self.data[0], frozenset(f(self.data[1], o.data[1]))), self.strict and o.strict, None, self.calls + o.calls)
+
+    def __invert__(self):
+        if self.kind != "truth":
+            raise Unsupported("~ on an arithmetic result")
+        return Bin("truth", (self.data[0], self.data[0] - self.data[1]), self.strict, None, self.calls)
+
+    def __or__(self, o):
+        return self._combine(o, lambda a, b: a | b)
+
+    def __and__(self, o):
+        return self._combine(o, lambda a, b: a & b)
+
+    def __xor__(self, o):
+        return self._combine(o, lambda a, b: a ^ b)
+
+    def __repr__(self):
+        return "Bin(%s %s strict=%s)" % (self.kind, self.data, self.strict)
+
+
+def check_operator_table_fold(run, tree, table):
+    hk = hooks()
+    ci = tree.cls(ARRAY_Q)
+    state = {}
+
+    def stub(op, lhs, rhs, strict=True, **kwargs):
+        name = op.data[0][6:] if isinstance(op, Marker) and op.kind == "ext" and op.data[0].startswith("numpy.") else getattr(op, "__name__", None)
+        if name is None:
+            raise Unsupported("_binary_op called with %r" % (op,))
+        order = "SO" if (lhs is state["self"] and rhs is state["other"]) else "OS" if (lhs is state["other"] and rhs is state["self"]) else None
+        if order is None:
+            raise Unsupported("_binary_op called with operands other than (self, other)")
+        extra = sorted(k for k in kwargs if k != "out")
+        if extra:
+            raise Unsupported("_binary_op called with extra keywords %s" % extra)
+        out = kwargs.get("out")
+        out = "self" if out is state["self"] else None if out is None else "other-object"
+        if name in TRUTH:
+            dom, ts = TRUTH[name]
+            ts = frozenset(ts if order == "SO" else {MIRROR[x] for x in ts})
+            return Bin("truth", (dom, ts), strict is True, out)
+        if name in ARITH_NAMES:
+            return Bin("arith", (ARITH_NAMES[name], order), strict, out)
+        return Bin("other", (name, order), strict, out)
+    hk["pkgfunc"] = {"core/array.py::_binary_op": stub}
+    for dunder, (names, strict, inplace) in table.items():
+        fi = tree.method(ci, dunder)
+        construct = "%s.%s" % (ARRAY_Q, dunder)
+        if fi is None or fi.cls.qual != ci.qual:
+            run.violated(construct, ci.module.rel, "operator %s is not defined on Array" % dunder,
+                         "any expression using this operator falls back to object/numpy semantics without unit handling")
+            continue
+        run.analysed(fi)
+        try:
+            state["self"] = new_array(tree, hk, "S", "m")
+            state["other"] = new_array(tree, hk, "O", "cm")
+            ev = ModelEval(tree, fi, {}, hk)
+            try:
+                res = ev.invoke(fi, [state["self"], state["other"]], {}, None)
+            except Raised as e:
+                run.violated(construct, fi.where(), "raises %s" % e, "a %s b" % dunder)
+                continue
+            problems = []
+            if not isinstance(res, Bin):
+                run.unresolved(construct, fi.where(), "the operator does not resolve to _binary_op: returns %r" % (res,))
+                continue
+            if names[0] in TRUTH:
+                dom, ts = TRUTH[names[0]]
+                if res.kind != "truth" or res.data[0] != dom:
+                    problems.append("computes %r, the table requires np.%s" % (res.data, names[0]))
+                elif res.data[1] != frozenset(ts):
+                    diff = sorted(res.data[1] ^ frozenset(ts))
+                    problems.append("true for operand relations %s, np.%s is true for %s: differs where the operands are %s" % (
+                        sorted(res.data[1]), names[0], sorted(ts), "/".join(diff)))
+            else:
+                if res.kind != "arith" or res.data != (ARITH_NAMES[names[0]], "SO"):
+                    problems.append("computes %s, the table requires self %s other" % (res.data, ARITH_NAMES[names[0]]))
+            if bool(res.strict) is not strict:
+                problems.append("strict=%r, the table requires %r (%s)" % (res.strict, strict, "incompatible units must raise" if strict else
+                                                                           "incompatible units must multiply/divide into a derived unit"))
+            if inplace and res.out != "self":
+                problems.append("in-place operator does not pass out=self")
+            if not inplace and res.out is not None:
+                problems.append("out-of-place operator passes out=")
+            run.ob(construct, not problems, fi.where(), "; ".join(problems) or "np.%s strict=%s%s" % (names[0], strict, " out=self" if inplace else ""),
+                   "a %s b with %s" % (dunder, "operands in compatible but different units, or NaN elements" if strict else "any operands"))
+        except ERR as e:
+            run.unresolved(construct, fi.where(), "cannot fold: %s" % e)
